@@ -121,12 +121,13 @@ Rng &entropy_rng(){ return erng; }
 const std::string &trace_text(){ return g_text; }
 void tracef(const char *fmt,...){
 	if(!P.text_trace) return;
+	IGN;
 	char b[512]; int n = snprintf(b,sizeof(b),"[%lu t%d %ld] ",(unsigned long)S.steps,self_id(),(long)(g_now_us - P.start_time_s*1000000LL));
 	va_list ap; va_start(ap,fmt); vsnprintf(b+n,sizeof(b)-n,fmt,ap); va_end(ap);
 	g_text += b; g_text += '\n';
 }
 int64_t now_us(){ return g_now_us; }
-void advance_us(int64_t d){ g_now_us += d; S.clock_jumps++; trace_mix(0xC10C ^ (uint64_t)d); tracef("clock += %ld us",(long)d); }
+void advance_us(int64_t d){ IGN; g_now_us += d; S.clock_jumps++; trace_mix(0xC10C ^ (uint64_t)d); tracef("clock += %ld us",(long)d); }
 void set_node(int n){ if(self) self->node = n; }
 void set_node_skew_us(int n,int64_t sk){ node_skew[n] = sk; }
 static int64_t node_now(){ int64_t t = g_now_us; if(self && !node_skew.empty()) { auto p = node_skew.find(self->node); if(p != node_skew.end()) t += p->second; } return t; }
@@ -208,8 +209,11 @@ static void schedule(){
 		return;
 	}
 }
-void yield(){ if(!in_sim()||in_actor) return; schedule(); }
+TsanIgnore::TsanIgnore(){ if(AnnotateIgnoreReadsBegin){ AnnotateIgnoreReadsBegin(__FILE__,__LINE__); AnnotateIgnoreWritesBegin(__FILE__,__LINE__); } }
+TsanIgnore::~TsanIgnore(){ if(AnnotateIgnoreReadsBegin){ AnnotateIgnoreWritesEnd(__FILE__,__LINE__); AnnotateIgnoreReadsEnd(__FILE__,__LINE__); } }
+void yield(){ if(!in_sim()||in_actor) return; IGN; schedule(); }
 bool block(std::function<bool()> pred,int64_t deadline,const char*why){
+	IGN;
 	if(in_actor) fatal("internal",std::string("actor step tried to block: ")+why);
 	self->st=Thread::BLK; self->ready=std::move(pred); self->deadline=deadline; self->timed_out=false; self->why=why;
 	schedule();
@@ -232,6 +236,7 @@ static std::map<std::thread::native_handle_type,int> by_handle;
 
 static void fs_reset();
 static void fd_reset();
+std::map<std::string,uint64_t> &probes();
 
 void begin(const Params &p){
 	P = p; S = Stats();
@@ -242,7 +247,7 @@ void begin(const Params &p){
 	mtx.clear(); cwait.clear(); rws.clear(); by_handle.clear(); node_skew.clear();
 	pct_points.clear(); pct_next=0;
 	if(p.strategy==S_PCT){ for(int i=0;i<p.pct_depth-1;i++) pct_points.push_back(1+sched_rng.below(p.pct_len>0?p.pct_len:1)); std::sort(pct_points.begin(),pct_points.end()); }
-	fs_reset(); fd_reset();
+	fs_reset(); fd_reset(); probes().clear();
 	auto *t=new Thread; t->id=0; t->prio = p.pct_depth + (int64_t)sched_rng.below(1<<20); threads.push_back(t); self=t; g_active=true;
 }
 void end(){
@@ -703,3 +708,8 @@ extern "C" int __wrap_readdir_r(DIR*dp,struct dirent*e,struct dirent**res){ IGN;
 	SimDir*d=(SimDir*)dp; yield(); if(d->pos>=d->names.size()){ *res=nullptr; return 0; }
 	memset(e,0,offsetof(struct dirent,d_name)); std::string &n=d->names[d->pos++]; snprintf(e->d_name,256,"%s",n.c_str()); e->d_ino=d->pos+10; e->d_type=DT_UNKNOWN; *res=e; return 0; }
 extern "C" int __wrap_closedir(DIR*dp){ IGN; if(!simdirs.count(dp)) return __real_closedir(dp); simdirs.erase(dp); delete (SimDir*)dp; return 0; }
+
+// ================================================================ hooks called from /repo (guard ARTYOM_BEILIS_CPPCMS_VERIF)
+namespace simk { std::map<std::string,uint64_t> g_probes; std::map<std::string,uint64_t> &probes(){ return g_probes; } }
+extern "C" unsigned artyom_beilis_cppcms_verif_rand(){ IGN; return g_active ? (unsigned)(frng.next() >> 16) : 0u; }
+extern "C" void artyom_beilis_cppcms_verif_probe(const char *id){ IGN; if(g_active) simk::g_probes[id]++; }
